@@ -19,6 +19,8 @@ class Cx:
         self.undecided = []
 
     def rule(self, rid, text, floor=None):
+        if rid in self.rules:
+            return rid
         self.rules[rid] = {"id": rid, "text": text, "floor": floor, "instances": 0,
                            "ok": 0, "violations": 0, "advisory": 0}
         return rid
